@@ -238,11 +238,13 @@ Section Recon.
   Qed.
 
   (** ** The whole combination *)
-  Definition ok_pair (p : item * dval) : Prop :=
+  Definition ok_expo (p : expo) : Prop :=
     match p with
-    | (SC e _, VS _) => wf_edict e
-    | (LMI m, VM Sm) => same_shape Sm m /\ wf_matrix m
-    | _ => True
+    | (SC e _, _, _) => wf_edict e
+    | (LMI m, d, u) =>
+        match lmi_multiplier d u with Some s => same_shape s m | None => True end
+        /\ match d with VM s => same_shape s m | VS _ => True end
+        /\ wf_matrix m
     end.
 
   Fixpoint psd_sum (l : list (list (list Q) * list (list edict))) : R :=
@@ -251,8 +253,18 @@ Section Recon.
   Lemma multiplier_sum_split a :
     multiplier_sum G F a = pair_sum (scalar_part a) - psd_sum (psd_part a).
   Proof.
-    induction a as [|[it d] a IH]; cbn [multiplier_sum scalar_part psd_part flat_map pair_sum psd_sum]; [lra|].
+    induction a as [|[[it d] u] a IH]; cbn [multiplier_sum scalar_part psd_part flat_map pair_sum psd_sum]; [lra|].
     fold (scalar_part a). fold (psd_part a).
+    destruct it as [e s|m].
+    - destruct d as [l|Sm]; cbn [app pair_sum psd_sum]; rewrite IH; lra.
+    - destruct (lmi_multiplier d u) as [s|]; destruct d; cbn [app pair_sum psd_sum]; rewrite IH; lra.
+  Qed.
+
+  Lemma old_multiplier_sum_split a :
+    old_multiplier_sum G F a = pair_sum (scalar_part a) - psd_sum (old_psd_part a).
+  Proof.
+    induction a as [|[[it d] u] a IH]; cbn [old_multiplier_sum scalar_part old_psd_part flat_map pair_sum psd_sum]; [lra|].
+    fold (scalar_part a). fold (old_psd_part a).
     destruct it as [e s|m], d as [l|Sm]; cbn [app pair_sum psd_sum]; rewrite IH; lra.
   Qed.
 
@@ -281,30 +293,51 @@ Section Recon.
       split; [exact H1|]. rewrite H2, ev_add, ev_scal by (assumption || apply eND_scal; assumption). lra.
   Qed.
 
-  Lemma parts_ok a : Forall ok_pair a ->
+  Lemma parts_ok a : Forall ok_expo a ->
     Forall (fun p => same_shape (fst p) (snd p) /\ wf_matrix (snd p)) (psd_part a)
+    /\ Forall (fun p => same_shape (fst p) (snd p) /\ wf_matrix (snd p)) (old_psd_part a)
     /\ Forall (fun p : Q * edict => eND (snd p)) (scalar_part a).
   Proof.
-    induction a as [|[it d] a IH]; intro H; cbn [psd_part scalar_part flat_map].
-    - split; constructor.
-    - inversion H as [|? ? Hp H']; subst. destruct (IH H') as [H1 H2].
-      fold (psd_part a). fold (scalar_part a).
-      destruct it as [e s|m], d as [l|Sm]; cbn [app]; cbn [ok_pair] in Hp; split; try assumption.
-      + constructor; [exact Hp|exact H2].
-      + constructor; [exact Hp|exact H1].
+    induction a as [|[[it d] u] a IH]; intro H; cbn [psd_part old_psd_part scalar_part flat_map].
+    - repeat split; constructor.
+    - inversion H as [|? ? Hp H']; subst. destruct (IH H') as [H1 [H2 H3]].
+      fold (psd_part a). fold (old_psd_part a). fold (scalar_part a).
+      destruct it as [e s|m]; cbn [ok_expo] in Hp.
+      + destruct d as [l|Sm]; cbn [app]; repeat split; try assumption. constructor; assumption.
+      + destruct Hp as [Hp1 [Hp2 Hp3]].
+        destruct (lmi_multiplier d u) as [s|]; destruct d as [l|Sm]; cbn [app]; repeat split; try assumption;
+          constructor; try assumption; cbn [fst snd]; split; assumption.
   Qed.
 
-  (** lines 733-763 *)
-  Theorem combination_spec res a : Forall ok_pair a ->
+  (** lines 733-768 *)
+  Lemma combine_terms_spec res psds scs :
+    Forall (fun p => same_shape (fst p) (snd p) /\ wf_matrix (snd p)) psds ->
+    Forall (fun p : Q * edict => eND (snd p)) scs ->
+    eND (combine_terms res psds scs)
+    /\ ev (combine_terms res psds scs) = pair_sum scs - psd_sum psds - mdot res G.
+  Proof.
+    intros Hp Hs. destruct (gram_term_spec res) as [H0 H0']. unfold combine_terms.
+    destruct (fold_psd psds (gram_term res) H0 Hp) as [H1 H1'].
+    destruct (fold_scalars scs _ H1 Hs) as [H2 H2'].
+    split; [exact H2|]. rewrite H2', H1', H0'. lra.
+  Qed.
+
+  Theorem combination_spec res a : Forall ok_expo a ->
     eND (combination res a)
     /\ ev (combination res a) = multiplier_sum G F a - mdot res G.
   Proof.
-    intro Hok. destruct (parts_ok a Hok) as [Hp Hs].
-    destruct (gram_term_spec res) as [H0 H0'].
-    unfold combination.
-    destruct (fold_psd (psd_part a) (gram_term res) H0 Hp) as [H1 H1'].
-    destruct (fold_scalars (scalar_part a) _ H1 Hs) as [H2 H2'].
-    split; [exact H2|]. rewrite H2', H1', H0', multiplier_sum_split. lra.
+    intro Hok. destruct (parts_ok a Hok) as [Hp [_ Hs]].
+    destruct (combine_terms_spec res _ _ Hp Hs) as [H1 H2]. split; [exact H1|].
+    unfold combination. rewrite H2, multiplier_sum_split. lra.
+  Qed.
+
+  Theorem old_combination_spec res a : Forall ok_expo a ->
+    eND (old_combination res a)
+    /\ ev (old_combination res a) = old_multiplier_sum G F a - mdot res G.
+  Proof.
+    intro Hok. destruct (parts_ok a Hok) as [_ [Hp Hs]].
+    destruct (combine_terms_spec res _ _ Hp Hs) as [H1 H2]. split; [exact H1|].
+    unfold old_combination. rewrite H2, old_multiplier_sum_split. lra.
   Qed.
 End Recon.
 
